@@ -102,6 +102,35 @@ theorem c19_ack_cached (sh : Str → Nat) (st st' : Store) (k : Str) (c : Cond) 
       refine ⟨c', ?_, hd⟩
       simp [lget, lput, sameKey, List.find?, hn]
 
+/-- The limiter's pattern for conditions it keeps (`<upstream>.state`, reported conditions): `Get` the stored
+    pointer, change it in place, `Save` that pointer. Write-through, answer nil ⇒ the API holds the condition AS
+    EDITED (the content at the time of the acknowledgement) — a `Save` may not skip the write because the argument
+    "equals" what is cached: the cached object IS the argument. -/
+theorem c19_ack_persisted_stored (sh : Str → Nat) (st st' : Store) (k n : Str) (a b c : Nat) (w w' : World)
+    (hwt : st.cfg.writeThrough = true) (h : step sh st (.saveStored k n a b c) w = (st', w', .ok)) :
+    ∃ st1 c', edited st k n a b c = some (st1, c') ∧ c'.name = n ∧ c'.spec = a ∧ c'.status = b ∧
+      holdsData w'.api n c'.data = true := by
+  simp only [step] at h
+  cases hE : edited st k n a b c with
+  | none => rw [hE] at h; cases h
+  | some p =>
+    obtain ⟨st1, c'⟩ := p
+    rw [hE] at h
+    simp only [] at h
+    obtain ⟨c0, _, _, hn', _, hcfg, _, _⟩ := edited_some hE
+    have hsp : c'.spec = a ∧ c'.status = b := by
+      unfold edited at hE
+      cases hg : lget k n st.loc with
+      | none => rw [hg] at hE; cases hE
+      | some c1 =>
+        rw [hg] at hE
+        simp only [Option.some.injEq, Prod.mk.injEq] at hE
+        rw [← hE.2]
+        exact ⟨rfl, rfl⟩
+    have := c19_ack_persisted sh st1 st' k c' w w' (by rw [hcfg]; exact hwt) h
+    rw [hn'] at this
+    exact ⟨st1, c', rfl, hn', hsp.1, hsp.2, this⟩
+
 /-- a `Save` that answers an error (or refuses a condition of another shard) leaves the cache as it was -/
 theorem c19_failed_save_not_cached (sh : Str → Nat) (st st' : Store) (k : Str) (c : Cond) (w w' : World) (res : Res)
     (hres : res ≠ .ok) (h : save sh st k c w = (st', w', res)) : st' = st := by
@@ -384,8 +413,9 @@ def racingDelete : List OpI := [.plain (.save k v1), .plain (.flush []), .flushI
 /-- periodic, faults, a crash: allowed by the locks of the current source -/
 def allowed : List OpI :=
   [.plain (.save k v1), .plain (.save k other), .flushI [] 1 (.save k v2), .plain (.delete k n), .plain (.flush []),
-   .plain (.restart 0 true), .plain .load, .plain (.save k v1), .plain (.stop [])]
-def faults : List Fault := [.conflict, .transient, .notFound, .ok, .ok, .ok, .conflict, .ok, .ok, .ok, .ok, .ok, .ok, .lost]
+   .plain (.restart 0 true), .plain .load, .plain (.save k v1), .plain (.saveStored k n 9 9 1), .plain (.stop [])]
+def faults : List Fault :=
+  [.conflict, .transient, .notFound, .ok, .ok, .ok, .conflict, .ok, .ok, .ok, .ok, .ok, .conflict, .ok, .ok, .ok, .lost]
 end Witness
 
 theorem apiWf_empty {up : Str → Str} {n : Nat} : ApiWf up ⟨[], n⟩ :=
@@ -428,12 +458,12 @@ theorem c19_racing_delete_not_allowed : allowedHist genLocks false Witness.racin
 
 open Witness in
 /-- a history with retries, a lost reply, a vanished object, a periodic `Save` inside a flush, a deletion, a crash
-    and a new write-through holder satisfies every hypothesis of `c19_durable_repo` … -/
+    a new write-through holder and an in-place edit of a stored condition satisfies every hypothesis of `c19_durable_repo` … -/
 example : ApiWf up empty ∧ (∀ op ∈ allowed, OpIWf up op) ∧ allowedHist genLocks false allowed = true := by
   refine ⟨apiWf_empty, ?_, by decide⟩
   intro op hop
   simp only [allowed, List.mem_cons, List.mem_nil_iff, or_false] at hop
-  rcases hop with rfl | rfl | rfl | rfl | rfl | rfl | rfl | rfl | rfl
+  rcases hop with rfl | rfl | rfl | rfl | rfl | rfl | rfl | rfl | rfl | rfl
   · exact ⟨rfl, rfl⟩
   · exact ⟨rfl, rfl⟩
   · exact ⟨rfl, rfl⟩
@@ -442,15 +472,16 @@ example : ApiWf up empty ∧ (∀ op ∈ allowed, OpIWf up op) ∧ allowedHist g
   · trivial
   · trivial
   · exact ⟨rfl, rfl⟩
+  · exact (rfl : k = up n)
   · trivial
 
 open Witness in
 /-- … and its claims are not empty: at some crash point both a "persisted" and an "absent" claim are in force, at
-    the end the re-saved condition is claimed persisted by its acknowledgement -/
+    the end the condition re-saved and then edited in place (`saveStored`) is claimed persisted AS EDITED -/
 example :
     let pts := checkAll sh (newStore 0 false 5) Ghost.empty ⟨empty, faults, []⟩ allowed
-    pts.length = 23 ∧ pts.any (fun p => ! p.1.held.isEmpty && ! p.1.gone.isEmpty) = true ∧
-    (pts.getLast?.map (fun p => p.1.held.any (fun h => h.1 == n && h.2.2 == Why.ack))) = some true ∧
+    pts.length = 27 ∧ pts.any (fun p => ! p.1.held.isEmpty && ! p.1.gone.isEmpty) = true ∧
+    (pts.getLast?.map (fun p => p.1.held.any (fun h => h.1 == n && h.2.1 == (⟨k, 9, 9⟩ : Data) && h.2.2 == Why.ack))) = some true ∧
     pts.all (fun p => judge p.1 p.2) = true := by
   decide
 
